@@ -338,6 +338,7 @@ func (n *node) checkAlwaysSucceedsRecursion(t *Tree, visited map[*node]bool) boo
 type Tree struct {
 	Rules      map[string]*node
 	rulesCount map[string]uint
+	undefined  map[string]bool
 	node
 	inline, _switch, Ast bool
 	Strict               bool
@@ -367,6 +368,7 @@ func New(inline, _switch, noast bool) *Tree {
 	return &Tree{
 		Rules:      make(map[string]*node),
 		rulesCount: make(map[string]uint),
+		undefined:  make(map[string]bool),
 		inline:     inline,
 		_switch:    _switch,
 		Ast:        !noast,
@@ -594,6 +596,7 @@ func (t *Tree) link(countsForRule *[TypeLast]uint, n *node, counts *[TypeLast]ui
 			t.RulesCount++
 
 			t.Rules[name] = emptyRule
+			t.undefined[name] = true
 			t.RuleNames = append(t.RuleNames, emptyRule)
 			*countsByRule = append(*countsByRule, &[TypeLast]uint{})
 		}
@@ -1314,7 +1317,8 @@ func (t *Tree) Compile(file string, args []string, out io.Writer) (err error) {
 			continue
 		}
 		expression := element.Front()
-		if implicit := expression.Front(); expression.GetType() == TypeNil || implicit.GetType() == TypeNil {
+		/* a stub made for an undefined name, not a rule the grammar defines with an empty body */
+		if expression.GetType() == TypeNil || t.undefined[element.String()] {
 			if element.String() != "PegText" {
 				t.warn(fmt.Errorf("rule '%v' used but not defined", element))
 			}
